@@ -26,6 +26,21 @@ CLAIMED = {
         "routine are irrelevant). Tied to the code by differential runs of natsort.Less / natsort.Strings and order-law / numeric-reading oracles on the real function.",
    note="Lean kernel + propext/Quot.sound/Classical.choice; model LlirModel/Natsort.lean hand-written (index pair abstracted to suffixes); sort.Sort assumed to return a sorted permutation.",
    technique="Lean 4 proof over a hand-written model + differential correspondence with the Go implementation", design="§4 C20"),
+ "C18": dict(
+   text="The keyword tables of all enumerated types are regenerated from /repo on every run by evaluating every constant (value, String(), parser's FromString(String())); "
+        "the Lean kernel decides on the complete tables that every value maps back to itself and that no two values share a keyword. Flag sets: Lean proof (by bit "
+        "extensionality, for all subsets of defined flags, no bound) that OR-ing the printed members of DIFlag/DISPFlag/AllocKind gives the set back, given the decided "
+        "fact that every defined mask lies in the printer's First..Last loop range; printers tied by differential runs and print->parse oracles.",
+   note="Lean kernel (decide +kernel, no added axioms); trusted: the table generator (go/ast + generated Go evaluator + base-256 keyword encoding), the hand-written "
+        "flag-printer model, the harness.",
+   technique="Lean 4 kernel decision over tables regenerated from source + Lean proof for flag sets + differential correspondence", design="§4 C18"),
+ "C19": dict(
+   text="Lean proof, for every chunk sequence and every io.Writer-conforming writer (any failure point, short writes, any chunking), that WriteTo's count equals the bytes "
+        "accepted, the bytes delivered are exactly that prefix of String(), the error is the first error returned, nothing is written after it, a never-failing writer "
+        "receives String() exactly and a writer failing after k bytes receives exactly the first k. Tied to the code by recording the real chunk trace of every corpus "
+        "module and comparing (n, err, delivered, writes-after-error) at every failure offset.",
+   note="Lean kernel + propext/Quot.sound; model LlirModel/Writer.lean hand-written; fmt.Fprint* assumed to issue one Write per call; the io.Writer contract is a hypothesis.",
+   technique="Lean 4 proof over a hand-written state-machine model + differential correspondence with the Go implementation", design="§4 C19"),
 }
 
 def main():
